@@ -1,5 +1,5 @@
 From Coq Require Import List String.
-From Verif Require Import Base Dispatch.
+From Verif Require Import Base Dispatch DispatchEffects.
 Import ListNotations.
 Open Scope string_scope.
 
@@ -8,7 +8,11 @@ Definition handle (s : sexp) : string :=
   | SList (Atom cmd :: args) =>
       match handle_sev cmd args with
       | Some r => r
+      | None =>
+      match handle_effects cmd args with
+      | Some r => r
       | None => "!unknown-or-malformed " ++ cmd
+      end
       end
   | _ => "!malformed"
   end.
